@@ -116,15 +116,15 @@ def render(items: dict[str, Any]) -> str:
     lines = ["-- GENERATED by harness/sim/mw_extract.py from the current source tree on every C09/C10 run — do not edit",
              "namespace NauyacaVerif.Gen"]
     v = items.get("aclDenyLines")
-    lines.append("def aclDenyLines : List (List Nat) := [" + ", ".join(lean_str(s) for s in v) + "]" if v is not None else "-- aclDenyLines: NOT FOUND")
+    lines.append(core.lean_item("aclDenyLines", "List (List Nat)", None if v is None else "[" + ", ".join(lean_str(s) for s in v) + "]"))
     for k in ("aclNetworkStrict", "aclThirdAttemptGuarded"):
         v = items.get(k)
-        lines.append(f"def {k} : Bool := {'true' if v else 'false'}" if v is not None else f"-- {k}: NOT FOUND")
+        lines.append(core.lean_item(k, "Bool", None if v is None else ("true" if v else "false")))
     for k in ("rateLimitPrefix", "rateLimitSuffix", "rateLimitHole"):
         v = items.get(k)
-        lines.append(f"def {k} : List Nat := {lean_str(v)}" if v is not None else f"-- {k}: NOT FOUND")
+        lines.append(core.lean_item(k, "List Nat", None if v is None else lean_str(v)))
     v = items.get("chainOrder")
-    lines.append("def chainOrder : List (List Nat) := [" + ", ".join(lean_str(x) for x in v) + "]" if v is not None else "-- chainOrder: NOT FOUND")
+    lines.append(core.lean_item("chainOrder", "List (List Nat)", None if v is None else "[" + ", ".join(lean_str(x) for x in v) + "]"))
     lines.append("end NauyacaVerif.Gen")
     return "\n".join(lines) + "\n"
 
